@@ -53,10 +53,34 @@ func sortQueuesByPriority(queues []*Queue) {
 	})
 }
 
+// queueWithFairMax keeps a queue together with its fair max resources while sorting: the sort only swaps the
+// elements of the slice it is given, a side slice indexed by position would no longer match after the first swap.
+type queueWithFairMax struct {
+	queue   *Queue
+	fairMax *resources.Resource
+}
+
+func pairQueuesWithFairMax(queues []*Queue, fairMaxResources []*resources.Resource) []queueWithFairMax {
+	pairs := make([]queueWithFairMax, len(queues))
+	for i := range queues {
+		pairs[i] = queueWithFairMax{queue: queues[i], fairMax: fairMaxResources[i]}
+	}
+	return pairs
+}
+
+func unpairQueuesWithFairMax(pairs []queueWithFairMax, queues []*Queue, fairMaxResources []*resources.Resource) {
+	for i := range pairs {
+		queues[i] = pairs[i].queue
+		fairMaxResources[i] = pairs[i].fairMax
+	}
+}
+
 func sortQueuesByPriorityAndFairness(queues []*Queue, fairMaxResources []*resources.Resource) {
-	sort.SliceStable(queues, func(i, j int) bool {
-		l := queues[i]
-		r := queues[j]
+	pairs := pairQueuesWithFairMax(queues, fairMaxResources)
+	defer unpairQueuesWithFairMax(pairs, queues, fairMaxResources)
+	sort.SliceStable(pairs, func(i, j int) bool {
+		l := pairs[i].queue
+		r := pairs[j].queue
 		lPriority := l.GetCurrentPriority()
 		rPriority := r.GetCurrentPriority()
 		if lPriority > rPriority {
@@ -66,8 +90,8 @@ func sortQueuesByPriorityAndFairness(queues []*Queue, fairMaxResources []*resour
 			return false
 		}
 
-		comp := resources.CompUsageRatioSeparately(l.GetAllocatedResource(), l.GetGuaranteedResource(), fairMaxResources[i],
-			r.GetAllocatedResource(), r.GetGuaranteedResource(), fairMaxResources[j])
+		comp := resources.CompUsageRatioSeparately(l.GetAllocatedResource(), l.GetGuaranteedResource(), pairs[i].fairMax,
+			r.GetAllocatedResource(), r.GetGuaranteedResource(), pairs[j].fairMax)
 
 		if comp == 0 {
 			return resources.StrictlyGreaterThan(resources.Sub(l.GetPendingResource(), r.GetPendingResource()), resources.Zero)
@@ -77,12 +101,14 @@ func sortQueuesByPriorityAndFairness(queues []*Queue, fairMaxResources []*resour
 }
 
 func sortQueuesByFairnessAndPriority(queues []*Queue, fairMaxResources []*resources.Resource) {
-	sort.SliceStable(queues, func(i, j int) bool {
-		l := queues[i]
-		r := queues[j]
+	pairs := pairQueuesWithFairMax(queues, fairMaxResources)
+	defer unpairQueuesWithFairMax(pairs, queues, fairMaxResources)
+	sort.SliceStable(pairs, func(i, j int) bool {
+		l := pairs[i].queue
+		r := pairs[j].queue
 
-		comp := resources.CompUsageRatioSeparately(l.GetAllocatedResource(), l.GetGuaranteedResource(), fairMaxResources[i],
-			r.GetAllocatedResource(), r.GetGuaranteedResource(), fairMaxResources[j])
+		comp := resources.CompUsageRatioSeparately(l.GetAllocatedResource(), l.GetGuaranteedResource(), pairs[i].fairMax,
+			r.GetAllocatedResource(), r.GetGuaranteedResource(), pairs[j].fairMax)
 		if comp == 0 {
 			lPriority := l.GetCurrentPriority()
 			rPriority := r.GetCurrentPriority()
